@@ -13,7 +13,7 @@ let with_trace (toks : string list) (obs : (string, string list) Hashtbl.t) (f :
            if kv "res" okv = "panic" then Printf.sprintf "PROPFAIL %s sig=panic scenario panicked: %s" id (kv "msg" okv) else
            let evs = C02.events_of ot in
            let max = Values.z_to_coq (ZZ.of_string (let m = kv "max" k in if m = "" then "1048576" else m)) in
-           f id k evs (Abstract.abstract max evs))
+           f id k evs (Abstract.abstract_with (Some (Abstract.known_methods (kv "protocols" k))) max evs))
   | _ -> "SKIP"
 
 let nt k = if kv "nt" k = "1" then "nontrivial" else "trivial"
